@@ -222,12 +222,16 @@ def opt(x):
     return '-' if x is None else str(x)
 
 
-def sep_token(sep):
+def sep_token(sep, sc=None):
     kind = sep[0]
     if kind == 'n':
         return 'n'
     if kind == 'v':
         return 'v%d' % sep[1]
+    if kind == 'y':
+        return 'kbytes:' + nats(sep[1])            # a bytes object as separator
+    if kind == 's' and sc is not None:
+        return 'k%s:%s' % (sc, nats(sep[1]))       # the separators held in a container of kind sc
     return kind + nats(sep[1])
 
 
@@ -239,7 +243,60 @@ def sep_classes(sep):
     if sep[0] == 't':
         # a str separator is a scalar: it equals a character item only if it is that one character
         return {cls(sep[1][0])} if len(sep[1]) == 1 else set()
+    if sep[0] == 'y':
+        return set()          # a bytes object equals no item
     return {cls(c) for c in sep[1]}
+
+
+# round 3: the Python object that holds the separators of an 's' separator (case['sc']); the default (no 'sc')
+# is a list for an odd number of separators and a tuple for an even number, as before
+SEP_CONTAINERS = ('list', 'tuple', 'set', 'frozenset', 'dict', 'deque', 'range', 'bytearray', 'memoryview',
+                  'gen', 'iter')
+SEP_INT_ONLY = ('range', 'bytearray', 'memoryview')       # containers of plain ints
+SEP_MUTABLE = ('list', 'set', 'dict', 'deque', 'bytearray')
+
+
+def sep_container_ok(sc, codes):
+    """can a container of kind `sc` hold exactly these separator codes?"""
+    if sc in ('bytearray', 'memoryview'):
+        return all(c >= 1 and tag(c) == 0 and val(c) < 256 for c in codes)
+    if sc == 'range':
+        return is_run(codes)
+    return True
+
+
+def mk_sep_container(sc, objs):
+    if sc == 'list':
+        return list(objs)
+    if sc == 'tuple':
+        return tuple(objs)
+    if sc == 'set':
+        return set(objs)
+    if sc == 'frozenset':
+        return frozenset(objs)
+    if sc == 'dict':
+        return {o: None for o in objs}
+    if sc == 'deque':
+        return collections.deque(objs)
+    if sc == 'range':
+        return range(objs[0], objs[0] + len(objs)) if objs else range(0)
+    if sc == 'bytearray':
+        return bytearray(objs)
+    if sc == 'memoryview':
+        return memoryview(bytes(objs))
+    if sc == 'gen':
+        return (o for o in objs)
+    if sc == 'iter':
+        return iter(objs)
+    raise ValueError(sc)
+
+
+def sample_objects():
+    """one object of every kind a caller may pass as `sep` (for the generated is_scalar / is_collection table)"""
+    return [('str', 'ab'), ('bytes', b'ab'), ('list', [1, 2]), ('tuple', (1, 2)), ('set', {1, 2}),
+            ('frozenset', frozenset((1, 2))), ('dict', {1: None}), ('deque', collections.deque([1])),
+            ('range', range(2)), ('bytearray', bytearray(b'ab')), ('memoryview', memoryview(b'ab')),
+            ('gen', (x for x in (1, 2))), ('iter', iter([1, 2]))]
 
 
 def flatten(ll):
@@ -265,7 +322,9 @@ class C09(Property):
             'aliases for chunked/windowed/pairwise; all lists up to 3 over {None, 0, False, 2} x separators None / 0 / '
             'False / 0.0 / empty and one-element collections / callables / str separators x maxsplit for split and '
             'strip; all lists up to 3 over {None, 0, 0.0, True, 1} x every key kind (identity, callable, attribute '
-            'with fallback, key list, default) for unique/redundant/bucketize/partition; small chunk_ranges with '
+            'with fallback, key list, default) for unique/redundant/bucketize/partition; the separators of split '
+            'held in every kind of iterable (list, tuple, set, frozenset, dict keys, deque, range, bytearray, '
+            'memoryview, generator, iterator) and a bytes object as separator; small chunk_ranges with '
             'float/bool arguments and defaults; chunk_ranges and chunk sizes at huge magnitudes near chunk '
             'boundaries. Then exhaustive: all lists up to length 6 (7 thorough) over {a, b, sep} for split/strip '
             'with every separator kind and maxsplit -1..5; lengths 0..8 x size -1..9 x count x fill for '
@@ -286,6 +345,32 @@ class C09(Property):
         'chunk sizes above sys.maxsize (rejected by itertools.islice) are not generated',
     ]
     CORRESPONDENCE_NAME = 'C09.Driver (iterutils helper models) vs boltons.iterutils functions'
+
+    # ------------------------------------------------------------------ translator hook
+    def regen(self):
+        """Generated/C09_SepKinds.lean: what the CURRENT boltons.iterutils answers about one object of every
+        kind a caller may pass as `sep` - callable(obj) (CPython), is_iterable / is_scalar / is_collection (boltons:
+        the functions split_iter's dispatch rests on).  Props.lean proves (by evaluation of this table) that the
+        answers are the ones the model's dispatch (`SepKind.facts`, `isScalar`, `isCollection`) uses."""
+        from boltons import iterutils as iu
+        rows = []
+        for name, obj in sample_objects():
+            rows.append('  ("%s", %s, %s, %s, %s)' % (name, *('true' if b else 'false' for b in (
+                callable(obj), bool(iu.is_iterable(obj)), bool(iu.is_scalar(obj)), bool(iu.is_collection(obj))))))
+        plain = []
+        for name, obj in (('None', None), ('int', 3), ('float', 2.5), ('bool', True), ('object', object())):
+            plain.append('  ("%s", %s, %s, %s, %s)' % (name, *('true' if b else 'false' for b in (
+                callable(obj), bool(iu.is_iterable(obj)), bool(iu.is_scalar(obj)), bool(iu.is_collection(obj))))))
+        text = ('/- GENERATED by harness/bv/props/c09.py (regen) from the live boltons.iterutils - do not edit.\n'
+                '   One row per kind of object: (kind, callable(obj), is_iterable(obj), is_scalar(obj),\n'
+                '   is_collection(obj)) as answered by the current source for a sample object of that kind. -/\n'
+                'namespace C09.Generated\n\n'
+                '/-- strings and iterables that may hold separators -/\n'
+                'def sepKindTable : List (String × Bool × Bool × Bool × Bool) := [\n%s]\n\n'
+                '/-- objects that hold nothing: `None` and item values -/\n'
+                'def plainTable : List (String × Bool × Bool × Bool × Bool) := [\n%s]\n\n'
+                'end C09.Generated\n') % (',\n'.join(rows), ',\n'.join(plain))
+        return {'C09_SepKinds.lean': text}
 
     # ------------------------------------------------------------------ generation
     def cases(self, budget_s):
@@ -387,6 +472,38 @@ class C09(Property):
                         continue
                     for ms in (None, 1):
                         yield {'op': 'split', 'kind': kind, 'xs': list(xs), 'sep': ['v', 4], 'ms': ms}
+        # -- round 3: the separators held in every kind of iterable (list, tuple, set, frozenset, dict keys, deque,
+        #    range, bytearray, memoryview, generator, one-shot iterator), and a bytes object as separator
+        ikinds = ('list', 'bytes', 'iter', 'bytearray', 'tuple', 'deque')
+        i = 0
+        for sc in SEP_CONTAINERS:
+            for n in range(0, 4):
+                for xs in itertools.product((4, 7, 10), repeat=n):
+                    for codes in ([], [4], [4, 7], [7, 4], [4, 7, 10], [10]):
+                        if not sep_container_ok(sc, codes):
+                            continue
+                        i += 1
+                        ms = (None, 1, None, 2, 0)[i % 5]
+                        case = {'op': 'split', 'kind': ikinds[i % 6], 'xs': list(xs), 'sep': ['s', codes], 'ms': ms,
+                                'sc': sc}
+                        if ikinds[i % 6] in REITERABLE and i % 4 == 0:
+                            case['twice'] = True
+                        yield case
+            if sc in SEP_INT_ONLY:
+                continue
+            for n in range(0, 4):
+                for xs in itertools.product(syms, repeat=n):
+                    for codes in ([0], [0, 7], [1, 3], [2], [3, 0, 1]):
+                        i += 1
+                        yield {'op': 'split', 'kind': kinds[i % 5], 'xs': list(xs), 'sep': ['s', codes],
+                               'ms': (None, 1, None, 2)[i % 4], 'sc': sc}
+            for xs in itertools.product((4, 7), repeat=3):
+                yield {'op': 'split', 'kind': 'str', 'xs': list(xs), 'sep': ['s', [4]], 'ms': None, 'sc': sc}
+        for n in range(0, 4):
+            for xs in itertools.product((4, 7), repeat=n):
+                for codes in ([], [4], [4, 7]):
+                    for kind in ('bytes', 'list', 'bytearray', 'str'):
+                        yield {'op': 'split', 'kind': kind, 'xs': list(xs), 'sep': ['y', codes], 'ms': None}
         # -- strip: None / 0 / False / 0.0 as strip value
         i = 0
         for n in range(0, 4):
@@ -634,6 +751,10 @@ class C09(Property):
                 kind = 'deque'
             case = {'op': op, 'kind': kind, 'xs': xs, 'sep': sep,
                     'ms': rng.choice([None, None, rng.randint(0, 5), rng.randint(0, 2), -1 if rng.random() < 0.2 else 1])}
+            if sep[0] == 's' and kind != 'str' and rng.random() < 0.5:
+                sc = rng.choice(SEP_CONTAINERS)
+                if sep_container_ok(sc, sep[1]):
+                    case['sc'] = sc
             r = rng.random()
             if r < 0.15 and case['ms'] is not None:
                 case['pa'] = {'ms': rng.choice('fhbg')}
@@ -718,7 +839,7 @@ class C09(Property):
         if op == 'pairwise':
             return 'pairwise %s %s' % (opt(case['fill']), nats(case['xs']))
         if op == 'split':
-            return 'split %s %s %s' % (sep_token(case['sep']), ptok(case, 'ms'), nats(case['xs']))
+            return 'split %s %s %s' % (sep_token(case['sep'], case.get('sc')), ptok(case, 'ms'), nats(case['xs']))
         if op == 'pysplit':
             return '%s %s %s %s' % (op, sep_token(case['sep']), opt(case['ms']), nats(case['xs']))
         if op in ('lstrip', 'rstrip', 'strip'):
@@ -852,10 +973,22 @@ class C09(Property):
                 a = (dec(sep[1], ekind),)
             elif sep[0] == 't':
                 a = (''.join(dec(c, 'str') for c in sep[1]),)
+            elif sep[0] == 'y':
+                a = (bytes(val(c) for c in sep[1]),)
             elif sep[0] == 's':
                 objs = [dec(c, ekind) for c in sep[1]]
-                sepobj = objs if len(objs) % 2 else tuple(objs)
-                a = (sepobj,)
+                sc = case.get('sc')
+                if sc is None:
+                    sepobj = objs if len(objs) % 2 else tuple(objs)
+                else:
+                    if not sep_container_ok(sc, sep[1]) or ekind == 'str' and sc in SEP_INT_ONLY:
+                        raise BadCase('a %s cannot hold the separators %r' % (sc, sep[1]))
+                    sepobj = mk_sep_container(sc, objs)
+                    if sc not in SEP_MUTABLE:
+                        sepobj, keep = None, sepobj
+                        a = (keep,)
+                if sepobj is not None:
+                    a = (sepobj,)
             else:
                 classes = {cls(c) for c in sep[1]}
                 a = (lambda x: (0 if x is None else int(x) + 1) in classes,)
@@ -864,8 +997,16 @@ class C09(Property):
             elif dflt and sep[0] == 'n':
                 a = ()
             r = list(iu.split_iter(src, *a)) if it else iu.split(src, *a)
-            if sepobj is not None and list(sepobj) != [dec(c, ekind) for c in sep[1]]:
-                raise BadValue('the separator collection was modified by the call')
+            if sepobj is not None:
+                want = [dec(c, ekind) for c in sep[1]]
+                now = list(sepobj)
+                if type(sepobj) in (set, dict):
+                    same = len(now) == len(mk_sep_container('set', want)) and all(
+                        any(type(x) is type(y) and x == y for y in want) for x in now)
+                else:
+                    same = [(type(x), x) for x in now] == [(type(x), x) for x in want]
+                if not same:
+                    raise BadValue('the separator collection was modified by the call')
             return [encl(g) for g in r]
         if op in ('lstrip', 'rstrip', 'strip'):
             v = dec(case['v'], kind if kind == 'str' else 'list')
@@ -975,6 +1116,8 @@ class C09(Property):
         if op == 'split':
             if case['sep'][0] == 't' and len(case['sep'][1]) != 1:
                 return False     # a multi-character (or empty) str separator has no str.split counterpart item-wise
+            if case['sep'][0] == 'y':
+                return False     # a bytes object as separator of an item sequence: equals no item, nothing is split
             return case['ms'] is None or case['ms'] >= 0
         if op == 'chunk_ranges':
             return case['size'] >= 0 and case['cs'] >= 1 and case['off'] >= 0 and 0 <= case['ov'] < case['cs']
@@ -1183,6 +1326,8 @@ class C09(Property):
 
     # ------------------------------------------------------------------ shrinking
     def shrink(self, case):
+        if case.get('sc') not in (None, 'list'):
+            yield dict(case, sc='list')
         for f in ('twice', 'dflt', 'pa'):
             if case.get(f):
                 yield {k: v for k, v in case.items() if k != f}
@@ -1215,8 +1360,10 @@ class C09(Property):
             yield dict(case, kind='list')
         if case.get('kind') == 'bytearray':
             yield dict(case, kind='bytes')
-        if case.get('op') == 'split' and case['sep'][0] in ('s', 't', 'c') and case['sep'][1]:
+        if case.get('op') == 'split' and case['sep'][0] in ('s', 't', 'c', 'y') and case['sep'][1]:
             yield dict(case, sep=[case['sep'][0], case['sep'][1][:-1]])
+            if len(case['sep'][1]) > 1:
+                yield dict(case, sep=[case['sep'][0], case['sep'][1][1:]])
 
 
 def is_subsequence_multiset(small, big):
